@@ -312,6 +312,11 @@ func (k *Kernel) Advance(d time.Duration) {
 //go:norace
 func (k *Kernel) Elapsed() time.Duration { return time.Since(k.start) }
 
+// Start is the bubble time at which the kernel was created.
+//
+//go:norace
+func (k *Kernel) Start() time.Time { return k.start }
+
 // AdvanceHold moves the clock forward by d like Advance, but callbacks of
 // AfterFunc timers that fire on the way are created held: they have fired (Stop
 // reports false) and run only when the harness releases them - the
